@@ -18,7 +18,8 @@ RULE = ('base config (1-2 plain stages, identifier keys, nested mappings/lists) 
         'distinct = hash of the case')
 BUDGET = {'quick': (4, 600), 'thorough': (16, 10000)}
 ASSUMPTIONS = ['command-line values are YAML scalars or flow lists (a mapping value merges key-wise by design)',
-               'keys are identifiers (the command-line grammar splits on "." and "[")']
+               'keys are identifiers (the command-line grammar splits on "." and "[")',
+               'override mappings that address one list through a negative and another integer key at once are skipped (they may write one element twice)']
 
 IDENT = st.sampled_from(['a', 'b', 'c', 'lr', 'name', 'x1', 'opt'])
 LEAF = S.scalar_node(st.one_of(st.integers(0, 9), st.sampled_from(['s', 'txt', 1.5, True, None, ''])), )
@@ -212,6 +213,19 @@ def run_case(case):
             # a mapping inside a list of the override replaces what was there together with the list (it is not merged onto an
             # older list), so a negative key is a new mapping key, not an index: whether "a[0][-1]" then "exists" is not stated
             return Outcome(labels=['skip-negative-key-in-replaced-list'])
+        def aliasing_indices(n):
+            if n['t'] == 'map':
+                ints = [k for k, _ in n['items'] if isinstance(k, int) and not isinstance(k, bool)]
+                if any(k < 0 for k in ints) and len(ints) >= 2:
+                    return True
+                return any(aliasing_indices(v) for _, v in n['items'])
+            if n['t'] == 'seq':
+                return any(aliasing_indices(v) for v in n['items'])
+            return False
+        if aliasing_indices(ov):
+            # 'l: {1: x, -1: y}' may write the same list element twice in one document; "exists" is stated for paths of the
+            # config built so far, not for what an earlier key of the same document has just put there
+            return Outcome(labels=['skip-negative-and-other-index-in-one-mapping'])
         W = restricted(ov)
         missing = [p for p in W if not exists(sofar, p)]
         if any(len(p) >= 2 for p in missing):
